@@ -22,12 +22,15 @@ CFG = {
             "goroutines read Pending()/Content()/Stats() against writers and every view handed out is judged (consecutive nonces starting "
             "at a chain nonce some head had; re-read and compared with the pool's tables after quiescence). Price lattice (every run): "
             "replacements at gas prices 1, 2^32±1, 2^53, 2^64/200, 2^64/110±1, 2^63, 2^64±1, 2^128 × replacement prices P, P+1, threshold−1, "
-            "threshold, threshold+1 × bump 0/10/100 × pending/queued × local/remote, judged on big integers and by the Lean model on Nat.",
+            "threshold, threshold+1 × bump 0/10/100 × pending/queued × local/remote, judged on big integers and by the Lean model on Nat. "
+            "txSortedMap cache: random method sequences on a real txSortedMap (Put/Forward/Filter/Cap/Remove/Ready/Flatten), every call a "
+            "case for the Lean machine Model.TxSortedMap (contents + cache) and judged directly: a cache that is present is the nonce-sorted contents.",
     "tie": {"txList.Add/Filter/Forward/Cap/Ready/Remove": "corr (trace validation of every pool transition against Model.TxPool)",
             "TxPool.add/validateTx/enqueueTx/promoteTx/removeTx/promoteExecutables/demoteUnexecutables/reset/SetGasPrice":
                 "corr (trace validation; eviction policy = inferred oracle, costcap/gascap compared as sound upper bounds)",
             "block walk of reset (discarded/included)": "corr (harness computes the two branches on its own block tree; the pool's walk must agree)",
             "txPricedList Put/Removed/Underpriced/Discard/Cap": "corr (heap array and stale counter dumped by the accessor; victims of add and SetGasPrice predicted from the dumped heap by the concrete machine; post heap compared as multiset + stale counter + heap property)",
+            "txSortedMap Put/Forward/Filter/Cap/Remove/Ready/Flatten incl. cache": "corr (real txSortedMap driven through the accessor; returned transactions, contents and cache compared with Model.TxSortedMap on every call)",
             "pool loop eviction tick, journal, txFeed": "not modelled (eviction tick exercised in the concurrent tier only)"},
     "assumptions": ["sequential semantics under pool.mu: data races are not expressible in the model; the concurrent tier runs the real pool "
                     "from several goroutines (race detector in the thorough tier) and judges snapshots by the state clauses",
